@@ -354,14 +354,15 @@ void in_run(Rng& rng, bool scripted)
 void icdf_one(Rng& rng)
 {
     // vegas_icdf called directly with a canonical number of exactly 1 (documented guard) and with 0
-    std::size_t bins = rng.range(2, 128), dims = rng.range(1, 3);
+    std::size_t bins = rng.range(2, 128), dims = rng.below(2) ? rng.range(1, 3) : rng.range(9, 40);
     std::string gk;
     hep::vegas_pdf<T> pdf = make_grid(rng, dims, bins, gk);
-    for (int which = 0; which < 2; ++which)
+    if (dims > 8) count("icdf_calls_in_more_than_8_dimensions");
+    for (int which = 0; which < 3; ++which)
     {
         std::vector<T> u(dims);
         for (auto& v : u) v = T(rng.u01l());
-        u[rng.below(dims)] = which ? T(1) : T(0);
+        if (which < 2) u[rng.below(dims)] = which ? T(1) : T(0);
         std::vector<std::size_t> bin(dims, 12345);
         std::vector<T> x = u;
         T w = hep::vegas_icdf(pdf, x, bin);
@@ -371,13 +372,15 @@ void icdf_one(Rng& rng)
         LD wref = 1;
         for (std::size_t i = 0; i < dims; ++i)
         {
-            if (bin[i] >= bins) { viol(which ? "bin-index-out-of-range:u=1" : "bin-index-out-of-range:u=0", info); return; }
+            if (bin[i] >= bins) { viol(which == 1 ? "bin-index-out-of-range:u=1" : "bin-index-out-of-range:u=0", info); return; }
             T l = pdf.bin_left(i, bin[i]), r = pdf.bin_left(i, bin[i] + 1);
             T slack = T(2) * std::numeric_limits<T>::epsilon() * std::fmax(std::fabs(l), std::fabs(r));
             if (!(x[i] >= l - slack && x[i] <= r + slack)) viol("point-outside-bin", info);
             wref *= (LD)bins * ((LD)r - (LD)l);
         }
-        if (!close_rel<T>(w, wref, 4 * (dims + 1))) viol("weight-mismatch", J(info).f("expected", wref));
+        // a weight outside the range of T is legitimately 0 / denormal / inf: not judged
+        if (!(wref < (LD)std::numeric_limits<T>::max() / 4) || !(wref > (LD)std::numeric_limits<T>::min() * 4)) { count("weights_out_of_range_unjudged"); continue; }
+        if (!close_rel<T>(w, wref, 8 * (dims + 1))) viol("weight-mismatch", J(info).f("expected", wref));
     }
     ++ctx().evaluations;
 }
@@ -391,7 +394,7 @@ void vfh_run_case(std::uint64_t idx, Rng& rng)
     std::uint64_t m = idx % 100;
     if (m == 97) in_run(rng, false);
     else if (m == 98) in_run(rng, true);
-    else if (m == 99) icdf_one(rng);
+    else if (m == 99 || m == 96) icdf_one(rng);
     else direct(rng);
 }
 
